@@ -6,6 +6,7 @@
 //
 //	convert: record streams x ordered pairs/triples of formats (return trip, path independence)
 //	nest:    JSON documents of depth <= 3 x flatten separators x tabular formats
+//	         (key alphabet: letters, canonical indices and every lexical lookalike of an index: look.go)
 //	flags:   the complete cli.FLAG_TABLE, separator aliases, .mlrrc spellings
 package c02
 
@@ -26,12 +27,14 @@ func init() {
 
 func run(c *vf.Ctx) {
 	c.Rule = "convert: one case = one record stream (families of key lists x every value assignment) run through every ordered pair/triple of formats whose domains contain it; distinct = distinct stream with at least one pair inside the domain intersection. " +
-		"nest: one case = one JSON document (every value of depth<=3 over keys {a,b,1,2}, 6 leaf kinds, arrays<=2, <=5 leaves) x 3 flatten separators x 4 tabular formats. " +
+		"nest: one case = one JSON document (every value of depth<=3 over keys {a,b,1,2}, 6 leaf kinds, arrays<=2, <=5 leaves; plus the key-spelling dimension: every value of depth<=3 over 14 lexical spellings of each of 1,2(,3) and the never-an-index integers 0,-1,3, maps<=3, <=3 leaves; plus 6 string leaves resembling the {} / [] sentinels) x 3 flatten separators x 4 tabular formats x {implicit pair, flatten/unflatten verbs, their -f forms with every field listed}. " +
 		"flags: one case = one spelling (flag of cli.FLAG_TABLE / -i,-o,--io form / separator alias x flag / .mlrrc text) compared with its name- or doc-derived expansion on every corpus input."
 	c.Assume("data outside the intersection of the formats' representable domains is excluded (the property says 'representable in both'); the predicates are in formats.go and both sides are counted under counters domain-in/domain-out/pair-out/triple-out")
 	c.Assume("value text, key names and order are compared; the JSON type (quoted or not) of a scalar re-read from text is C06's subject and is not asserted")
 	c.Assume("a step from a non-nesting into a nesting format auto-unflattens keys containing the flatten separator (documented): such keys are outside the domain of that path")
 	c.Assume("records are non-empty and have distinct keys; values are valid UTF-8")
+	c.Assume("nest: a STRING leaf spelled exactly {} or [] is indistinguishable from the empty-collection sentinel by design and is left out; strings that merely resemble them are in")
+	c.Assume("nest: a flattened record outside the tabular format's representable domain (formats.go predicates: a blank in an XTAB/PPRINT key or PPRINT value) is not asserted for that format (counted under cli-format-domain-out); CSV, DKVP, the verbs and the library layer still assert it")
 	c.Assume("vacuity guard of the flag corpus: --ijson/--ijsonl select the same reader by design; --odcf/--orecutils coincide on single-line scalar values, so they are not told apart behind line-oriented readers; --igen ignores its input and is left out of the guard")
 	c.Assume("when both a spelling and its expansion fail (non-zero exit) only the failure is compared, not the message: which data error surfaces first is timing-dependent (C17's subject)")
 	c.Assume("flags that select neither a format nor a separator (comments, compression, colours, profiling, most of the miscellaneous section; listed in flag_spellings_without_own_case) are walked and counted but have no law of their own here; their alternate names are still compared with the primary name")
@@ -54,6 +57,19 @@ func run(c *vf.Ctx) {
 		nd += int64(vf.SetSize(res2, "docs"))
 		nd += c.Counters["lib-class:docs-in-guard"]
 		wall["nest"] = time.Since(t0).Seconds()
+		// a symbol of the key-spelling / sentinel-lookalike alphabets never exercised inside the guard is a harness bug
+		for _, layer := range []string{"lib", "cli"} {
+			for f := 1; f < len(lookFeatures); f++ {
+				if c.Counters[layer+"-lookalike-key:"+lookFeatures[f]] == 0 {
+					c.Broken("vacuity: %s layer never saw a lookalike index key with feature %s in a would-be-array position", layer, lookFeatures[f])
+				}
+			}
+			for _, lk := range sentinelLookalikes {
+				if c.Counters[layer+"-sentinel-lookalike-leaf:"+lk.name] == 0 {
+					c.Broken("vacuity: %s layer never saw the sentinel-lookalike leaf %s inside the guard", layer, lk.name)
+				}
+			}
+		}
 	}
 	if only == "" || only == "flags" {
 		t0 := time.Now()
